@@ -225,6 +225,46 @@ func (db *Database) DeleteControllerInput(controllerName string, dep controller.
 	return nil
 }
 
+// DeleteController removes all the outputs and inputs registered for the controller.
+//
+// It is used to roll back a partially applied registration of a controller which was rejected.
+func (db *Database) DeleteController(controllerName string) {
+	db.mu.Lock()
+	defer db.mu.Unlock()
+
+	for resourceType, exclusiveController := range db.exclusiveOutputs {
+		if exclusiveController == controllerName {
+			delete(db.exclusiveOutputs, resourceType)
+		}
+	}
+
+	for resourceType, sharedControllers := range db.sharedOutputs {
+		sharedControllers = slices.DeleteFunc(sharedControllers, func(s string) bool {
+			return s == controllerName
+		})
+
+		if len(sharedControllers) == 0 {
+			delete(db.sharedOutputs, resourceType)
+		} else {
+			db.sharedOutputs[resourceType] = sharedControllers
+		}
+	}
+
+	for key, controllers := range db.inputLookup {
+		db.inputLookup[key] = slices.DeleteFunc(controllers, func(s string) bool {
+			return s == controllerName
+		})
+	}
+
+	for key, controllers := range db.inputLookupID {
+		db.inputLookupID[key] = slices.DeleteFunc(controllers, func(s string) bool {
+			return s == controllerName
+		})
+	}
+
+	delete(db.controllerInputs, controllerName)
+}
+
 // GetControllerInputs returns a list of controller dependencies.
 func (db *Database) GetControllerInputs(controllerName string) ([]controller.Input, error) {
 	db.mu.Lock()
